@@ -99,7 +99,10 @@ CHECKS = {'C01': {'level': 'exploration',
                  'EVERY numeric column. Oracle: the reference model evaluates the chain as set algebra over live rows and the aggregates directly '
                  'over the selected rows holding a value. A query is non-trivial when the selection is neither empty nor everything and the layout '
                  'has rows lacking an aggregated column, >=2 blocks or reused offsets; a case is non-trivial when it ran >=1 such query; distinct = '
-                 'hash of the trace (incl. queries); counters.queries / counters.nontrivial_queries give the totals',
+                 'hash of the trace (incl. queries); counters.queries / counters.nontrivial_queries give the totals | since round 5: one query in '
+                 'eight has no filter at all; in one query in four another transaction (a nested collection-level DeleteAt plus a failing insert) '
+                 'runs between Count and Range - the selection is a snapshot, Range must visit exactly the rows Count counted; the same generated '
+                 'queries also run on a collection that replays the change stream (indexes created there as well)',
          'assumptions': ['aggregate-safe values: sums are exact in any order; Sum/Avg are not judged when the true sum does not fit the column type '
                          '(counted)',
                          'a fresh Union(missing, ...) is not generated (the text does not define it); WithValue is not applied to index names; '
@@ -159,7 +162,8 @@ CHECKS = {'C01': {'level': 'exploration',
                  'the block latch); failures are reported with program and stream and are not bit-reproducible | since round 5 the concurrent '
                  'programs (controlled and free-parallel) contain transactions that return an error after their last step (one in six; in '
                  '"abort-heavy" free-parallel programs every second one, with mostly inserts): nothing of them may apply, be emitted or stay '
-                 'reserved',
+                 'reserved | since round 5 (chain replication): the first replica has a change stream of its own, and a second-level replica fed '
+                 'from THAT stream must equal the model too',
          'assumptions': ['the replica has the same schema (columns created at the same history points) and the same index definitions',
                          'comparison happens when the primary is quiescent'],
          'tests': [{'run': '^TestC06$',
@@ -412,7 +416,9 @@ CHECKS = {'C01': {'level': 'exploration',
                  'commits (logs); distinct = (file, offset) | parallel part (TestC13Parallel): snapshots taken while 2..6 writer goroutines commit '
                  'a=v,b=-v,c=v on rows of 1..2 blocks with real parallelism; the complete file, the state section alone and prefixes ending at frame '
                  'boundaries inside the log tail are restored: whenever Restore returns nil EVERY row must satisfy a+b==0, c==a (a state containing '
-                 'part of a commit does not)',
+                 'part of a commit does not) | since round 5 the parallel part has hot rows into which every writer merges a positive amount: across '
+                 'growing prefixes of one snapshot (state section alone, up to 40 cuts inside the log tail, complete file) their restored values may '
+                 'never decrease',
          'assumptions': ['a crash leaves a prefix of the byte stream (no torn or reordered sectors)',
                          'which files are generated is random (rapid); offsets per file are enumerated as stated (coverage.exhaustive is true only '
                          'in the thorough tier)'],
@@ -570,7 +576,9 @@ CHECKS = {'C01': {'level': 'exploration',
                  'and snapshots; index build beside readers of that very index through the Go read paths (Row.Bool(index), txn.Bool(index).Get() in '
                  'Range, WithValue(index)) - the assembly bitmap kernels behind With/Without/Union are invisible to the race detector; readers are '
                  'gated so that they never name an unregistered index | since round 5: failing inserts (row callback returns an error) and '
-                 'rolled-back inserting transactions in the insert/delete worker and in a targeted workload',
+                 'rolled-back inserting transactions in the insert/delete worker and in a targeted workload | race attribution since round 5: a '
+                 'listed finding may restrict the PARTNER access (other=<regex>); reports whose partner is an Apply or a Grow are never attributed '
+                 'to the growth-vs-load finding',
          'assumptions': ['the race detector only reports races that actually execute in the run',
                          "which listed finding a report belongs to is decided by the unsynchronised mutator's function name (known_findings.txt "
                          'race=<regex>)'],
